@@ -10,7 +10,7 @@ pub mod c18;
 use crate::alpha::*;
 use crate::report::*;
 use crate::util::J;
-use crate::run_e1;
+use crate::{run_e1, run_e1_perm};
 
 const E1_RULE: &str = "every non-empty subset (size <= K) of each lattice / generic-pool alphabet, for every dimensionality, boundary kind and box of the menu, built by the real API; distinct = distinct combinatorial shape (per cell: set of non-negligible oracle faces and vertex count); non-trivial = at least one cell of positive measure";
 
@@ -26,32 +26,32 @@ pub fn run(prop: &str, tier: &str) -> i32 {
         "C01" => {
             run.rule = E1_RULE.to_string();
             run.bounds.push("E1 families (see families)".to_string());
-            run_e1(&mut run, &[1, 2, 3], &[false, true], 999, c01_04::eval_c01);
+            run_e1_perm(&mut run, &[1, 2, 3], &[false, true], 999, true, c01_04::eval_c01);
         }
         "C02" => {
             run.rule = E1_RULE.to_string();
-            run_e1(&mut run, &[1, 2, 3], &[false, true], 999, c01_04::eval_c02);
+            run_e1_perm(&mut run, &[1, 2, 3], &[false, true], 999, true, c01_04::eval_c02);
         }
         "C03" => {
             run.rule = format!("{}; x all 2^n masks (n <= 4) + mask-flip edges", E1_RULE);
-            run_e1(&mut run, &[1, 2, 3], &[false, true], 999, c01_04::eval_c03);
+            run_e1_perm(&mut run, &[1, 2, 3], &[false, true], 999, true, c01_04::eval_c03);
         }
         "C04" => {
             run.rule = format!("{}; x all 2^n masks (n <= 3)", E1_RULE);
-            run_e1(&mut run, &[1, 2, 3], &[false, true], 999, c01_04::eval_c04);
+            run_e1_perm(&mut run, &[1, 2, 3], &[false, true], 999, true, c01_04::eval_c04);
         }
         "C07" => {
             run.rule = format!("{}; x all 2^n masks (n <= 4 quick / 5 thorough): each node compared bitwise with the full build, so every mask-flip edge is covered by transitivity", E1_RULE);
             let mx = if run.thorough() { 5 } else { 4 };
-            run_e1(&mut run, &[1, 2, 3], &[false, true], 999, move |s| c07_12_13::eval_c07_with(s, mx));
+            run_e1_perm(&mut run, &[1, 2, 3], &[false, true], 999, true, move |s| c07_12_13::eval_c07_with(s, mx));
         }
         "C12" => {
             run.rule = format!("{}; x all 2^n masks (n <= 4) x routes (direct, From<&VoronoiIntegrator>, with faces)", E1_RULE);
-            run_e1(&mut run, &[1, 2, 3], &[false, true], 999, c07_12_13::eval_c12);
+            run_e1_perm(&mut run, &[1, 2, 3], &[false, true], 999, true, c07_12_13::eval_c12);
         }
         "C13" => {
             run.rule = format!("{}; x all 2^n masks (n <= 4); relations route<->route", E1_RULE);
-            run_e1(&mut run, &[1, 2, 3], &[false, true], 999, c07_12_13::eval_c13);
+            run_e1_perm(&mut run, &[1, 2, 3], &[false, true], 999, true, c07_12_13::eval_c13);
         }
         "C06" => {
             run.rule = format!("periodic states of: {}; relations: replicated reflective build (n <= 3 quick / 4 thorough), shift structure, 11-14 translations per state", E1_RULE);
